@@ -254,7 +254,10 @@ fn test(c: &Case, st: &mut Stats) -> TestResult {
         .map(|i| refattrs::lib_construct(POOL_KINDS[i % POOL_KINDS.len()], &pool_fields(i % POOL_KINDS.len(), (i / POOL_KINDS.len()) as u64 * 7 + 1), TID).unwrap())
         .collect();
     let raw_values: Vec<Vec<u8>> = (0..c.ops.len()).map(|i| match &c.ops[i] {
-        Op::AddRaw { len, .. } | Op::AddDupRaw { len, .. } => fill_bytes((*len % 9001) as usize, i as u64 + 3, 0),
+        // one raw value in four reads like attributes itself, laid out from its end (a FINGERPRINT /
+        // integrity header in the last bytes of what may be the last attribute of the message)
+        Op::AddRaw { len, ty } => fill_bytes((*len % 9001) as usize, i as u64 + 3 + ((*ty as u64) << 8), if (*ty ^ *len) % 4 == 0 { 4 } else { 0 }),
+        Op::AddDupRaw { len, .. } => fill_bytes((*len % 9001) as usize, i as u64 + 3, 0),
         _ => vec![],
     }).collect();
     let lc = c.creds.to_lib();
